@@ -37,10 +37,10 @@ type Monitor interface {
 // NopMonitor can be embedded.
 type NopMonitor struct{}
 
-func (NopMonitor) Before(*world.World, world.Op) interface{}                       { return nil }
+func (NopMonitor) Before(*world.World, world.Op) interface{}                      { return nil }
 func (NopMonitor) After(*world.World, world.Op, world.Res, interface{}) []Finding { return nil }
-func (NopMonitor) OnState(*world.World, []world.Op) []Finding                      { return nil }
-func (NopMonitor) ExtraKey(*world.World) string                                    { return "" }
+func (NopMonitor) OnState(*world.World, []world.Op) []Finding                     { return nil }
+func (NopMonitor) ExtraKey(*world.World) string                                   { return "" }
 
 // FindingRec aggregates all occurrences of one signature.
 type FindingRec struct {
